@@ -1079,7 +1079,7 @@ func (g *gen) idiom(d int, top bool) []stmtText {
 	e := func() string { return g.w(g.expr(kAny, d-1), pAssign) }
 	c := func() string { return g.condTest(d - 1).s }
 	cp := func() string { return g.w(g.condTest(d-1), pBitOr) }
-	switch r.Intn(41) {
+	switch r.Intn(45) {
 	case 33, 34: // several var declarations in one function (hoisting) with a destructuring declarator after initialised ones:
 		// the pattern must not be moved in front of the initialisers it follows (K121)
 		a, b, z := g.fresh("v"), g.fresh("v"), g.fresh("v")
@@ -1088,6 +1088,35 @@ func (g *gen) idiom(d int, top bool) []stmtText {
 		first := r.Pick(a+"="+h()+"(1)", a+"=5", a+"="+e())
 		mid := r.Pick("", "", ","+g.fresh("v"), ","+g.fresh("v")+"="+h()+"(2)")
 		return one(h()+"(function(){var "+z+";"+h()+"(0);var "+first+mid+","+pat+";return["+a+","+b+"]}())", true)
+	case 41, 42: // a block whose only statement is a function declaration, as the body of a loop / if / label: the braces stay (K125).
+		// The function is not referred to outside its block (Annex B hoisting of block functions is outside C01's domain)
+		g.kindHit("idiom:lone-function-declaration-body")
+		fn := g.fresh("f") // not declared to the generator: nothing else may refer to it
+		decl := r.Pick("function "+fn+"(){return 1}", "function "+fn+"(){return 1}", "function*"+fn+"(){}", "async function "+fn+"(){}")
+		if g.level < 2017 {
+			decl = "function " + fn + "(){return 1}"
+		}
+		switch r.Intn(5) {
+		case 0:
+			return one("for(var k=0;k<1;k++){"+decl+"}"+h()+"(3)", true)
+		case 1:
+			return one("if("+c()+"){"+decl+"}"+h()+"(3)", true)
+		case 2:
+			return one("if("+c()+"){"+decl+"}else{"+h()+"(2)}"+h()+"(3)", true)
+		case 3:
+			return one("do{"+decl+"}while(0);"+h()+"(3)", true)
+		default:
+			return one("lb:{"+decl+"}"+h()+"(3)", true)
+		}
+	case 43, 44: // class fields with numeric / string names after static (K126)
+		g.kindHit("idiom:static-field-names")
+		if g.level < 2022 {
+			return one(h()+"(1)", true)
+		}
+		cn := g.fresh("C")
+		nm := r.Pick("1", "0x10", ".5", "1e3", "\"a b\"", "\"q\"", "2")
+		key := map[string]string{"1": "1", "0x10": "16", ".5": "0.5", "1e3": "1000", "\"a b\"": "\"a b\"", "\"q\"": "\"q\"", "2": "2"}[nm]
+		return one("class "+cn+"{static "+nm+"="+h()+"(7);"+r.Pick("", "static x=1;", nm+"=3;")+"}"+h()+"("+cn+"["+key+"],Object.keys("+cn+").join())", true)
 	case 37, 38: // inner scopes of every kind whose own declarations already carry the short names the renamer hands out first
 		// (e, t, n, r, i): if such a scope is skipped by the renamer, the enclosing function's renamed variables are captured
 		g.kindHit("idiom:short-names-in-inner-scope")
